@@ -17,6 +17,7 @@ import (
 // activity, RPC handlers, role changes, snapshots and shutdowns run.
 
 func scenRaceAPI(x *Ctx) {
+	x.SkipOffline = true
 	r := x.R
 	n := 3 + r.Intn(3)
 	all, _, ok := x.startStatic(n)
